@@ -123,6 +123,7 @@ macro_rules! writer_harness {
 		#[kani::stub(parking_lot::RawRwLock::lock_exclusive_slow, crate::verif_stubs::lock_exclusive_slow)]
 		#[kani::stub(parking_lot::RawRwLock::unlock_exclusive_slow, crate::verif_stubs::unlock_exclusive_slow)]
 		#[kani::stub(std::fmt::format, crate::verif_stubs::fmt_format)]
+		#[kani::stub(crc32fast::Hasher::new, crate::verif_stubs::crc_hasher_new)]
 		fn $name() {
 			$body
 		}
@@ -203,7 +204,7 @@ pub(crate) fn stub_sync_data(_f: &std::fs::File) -> std::io::Result<()> {
 		}
 	}
 }
-writer_harness!(#[kani::unwind(4)] #[kani::stub(std::fs::File::sync_data, stub_sync_data)] u32_log_file_synced_before_it_becomes_readable, {
+writer_harness!(#[kani::unwind(4)] #[kani::stub(std::fs::File::sync_data, stub_sync_data)] #[kani::stub(<std::os::fd::OwnedFd as std::ops::Drop>::drop, stub_owned_fd_drop)] u32_log_file_synced_before_it_becomes_readable, {
 	use std::os::fd::FromRawFd;
 	let mut log = std::mem::ManuallyDrop::new(mk_log());
 	let sync: bool = kani::any();
@@ -216,9 +217,8 @@ writer_harness!(#[kani::unwind(4)] #[kani::stub(std::fs::File::sync_data, stub_s
 	*log.appending.write() = Some(Appending { id, file: std::io::BufWriter::with_capacity(8, file), size });
 	unsafe {
 		SYNC_N = 0;
-		// the failing-sync path drops the File inside flush_one, which needs close(2): Kani has no model for it, so only a
-		// successful sync is exercised (stated as the bound of this harness)
-		SYNC_FAIL = false;
+		// the failing-sync path drops the File inside flush_one: close(2) is replaced by a recorder (stub_owned_fd_drop)
+		SYNC_FAIL = kani::any();
 		SYNC_QUEUE_LEN = 0;
 		LOGP = &*log as *const Log;
 	}
@@ -245,3 +245,133 @@ writer_harness!(#[kani::unwind(4)] #[kani::stub(std::fs::File::sync_data, stub_s
 	}
 	kani::cover!(queued == 1 && sync, "reached");
 });
+
+// ================================================================== U46: Log::read_next classifies the outcome of reading a record header
+// LogReader::next replaced by its contract with a scripted outcome. Only a clean end of file ends the log file (it is then handed
+// to the cleanup stage); any other I/O error is reported and the file stays where it is (its records were not applied, so it must
+// never reach the stage that truncates it).
+pub(crate) static mut NEXT_MODE: u8 = 0;
+pub(crate) fn stub_reader_next<'a>(_r: &mut LogReader<'a>) -> Result<LogAction>
+where
+	'a: 'a,
+{
+	match unsafe { NEXT_MODE } {
+		0 => Ok(LogAction::BeginRecord),
+		1 => Ok(LogAction::EndRecord),
+		2 => Err(Error::Io(std::io::Error::from(std::io::ErrorKind::UnexpectedEof))),
+		3 => Err(Error::Io(std::io::Error::from(std::io::ErrorKind::Other))),
+		4 => Err(Error::Io(std::io::Error::from(std::io::ErrorKind::Interrupted))),
+		_ => Err(Error::Corruption(String::new())),
+	}
+}
+writer_harness!(#[kani::unwind(4)] #[kani::stub(LogReader::next, stub_reader_next)] u46_read_next_reports_io_errors, {
+	use std::os::fd::FromRawFd;
+	let log = std::mem::ManuallyDrop::new(mk_log());
+	let id: u32 = kani::any();
+	let validate: bool = kani::any();
+	// a file handle that is never used for I/O in this harness (LogReader::next is a contract)
+	let file = unsafe { std::fs::File::from_raw_fd(3) };
+	*log.reading.write() = Some(Reading { id, file: std::io::BufReader::with_capacity(8, file) });
+	let mode: u8 = kani::any();
+	kani::assume(mode <= 5);
+	unsafe { NEXT_MODE = mode };
+	let r = log.read_next(validate);
+	let (is_err, is_some) = match r {
+		Ok(Some(reader)) => {
+			std::mem::forget(reader);
+			(false, true)
+		},
+		Ok(None) => (false, false),
+		Err(e) => {
+			std::mem::forget(e);
+			(true, false)
+		},
+	};
+	let in_cleanup = if log.cleanup_queue.is_locked() { usize::MAX } else { log.cleanup_queue.read().len() };
+	match mode {
+		0 => assert!(!is_err && is_some && in_cleanup == 0, "U46.read_next.a_record_header_yields_a_reader"),
+		2 => {
+			// clean end of file: the log file is exhausted and goes to cleanup
+			assert!(!is_err && !is_some, "U46.read_next.end_of_file_is_the_end_of_the_log_not_an_error");
+		},
+		3 | 4 => {
+			assert!(is_err, "U46.read_next.an_io_error_is_reported");
+			assert!(in_cleanup == 0, "U46.read_next.a_log_file_that_failed_to_read_is_not_handed_to_cleanup");
+		},
+		_ => {
+			assert!(is_err, "U46.read_next.a_malformed_record_is_reported");
+			assert!(in_cleanup == 0, "U46.read_next.a_log_file_that_failed_to_read_is_not_handed_to_cleanup");
+		},
+	}
+	kani::cover!(mode == 3 && is_err, "reached");
+	kani::cover!(mode == 2 && !is_err, "reached eof");
+});
+
+// ================================================================== U47: Log::kill_logs deletes only what has been applied
+// Shutdown deletes the recycled (empty) log files of the pool and the file whose records were all applied (`reading`); a log file
+// that is still waiting to be applied (read queue) is left on disk for replay at the next open.
+pub(crate) static mut DROPPED_N: usize = 0;
+pub(crate) static mut DROPPED_QUEUED: bool = false;
+pub(crate) static mut QUEUED_ID: u32 = 0;
+pub(crate) fn stub_drop_log(_l: &Log, id: u32) -> Result<()> {
+	unsafe {
+		DROPPED_N += 1;
+		if id == QUEUED_ID {
+			DROPPED_QUEUED = true;
+		}
+	}
+	Ok(())
+}
+// closing a descriptor (close(2)) is foreign code: the drop of the descriptor is replaced by a recorder
+pub(crate) static mut CLOSED_N: usize = 0;
+pub(crate) fn stub_owned_fd_drop(_fd: &mut std::os::fd::OwnedFd) {
+	unsafe { CLOSED_N += 1 };
+}
+pub(crate) static mut DROPPED_IDS: [u32; 4] = [0; 4];
+writer_harness!(#[kani::unwind(4)] #[kani::stub(Log::drop_log, stub_drop_log2)] #[kani::stub(<std::os::fd::OwnedFd as std::ops::Drop>::drop, stub_owned_fd_drop)] u47_kill_logs_keeps_unapplied_log_files, {
+	use std::os::fd::FromRawFd;
+	let log = std::mem::ManuallyDrop::new(mk_log());
+	let (q, p, r): (u32, u32, u32) = (kani::any(), kani::any(), kani::any());
+	kani::assume(q != p && q != r && p != r);
+	let has_pool: bool = kani::any();
+	let has_reading: bool = kani::any();
+	log.read_queue.write().push_back((q, unsafe { std::fs::File::from_raw_fd(3) }));
+	if has_pool {
+		log.log_pool.write().push_back((p, unsafe { std::fs::File::from_raw_fd(4) }));
+	}
+	if has_reading {
+		*log.reading.write() = Some(Reading { id: r, file: std::io::BufReader::with_capacity(8, unsafe { std::fs::File::from_raw_fd(5) }) });
+	}
+	unsafe {
+		DROPPED_N = 0;
+		DROPPED_QUEUED = false;
+		QUEUED_ID = q;
+		CLOSED_N = 0;
+	}
+	let res = ok(log.kill_logs());
+	assert!(res.is_some(), "U47.kill_logs.no_error");
+	assert!(!unsafe { DROPPED_QUEUED }, "U47.kill_logs.a_log_file_waiting_to_be_applied_is_not_deleted");
+	assert!(log.read_queue.read().len() == 1, "U47.kill_logs.the_read_queue_is_left_for_replay_at_the_next_open");
+	// recycled (empty) pool files and the fully applied file are removed
+	let n = unsafe { DROPPED_N };
+	assert!(n == (has_pool as usize) + (has_reading as usize), "U47.kill_logs.pool_files_and_the_applied_file_are_deleted");
+	if has_pool {
+		assert!(unsafe { DROPPED_IDS[0] } == p, "U47.kill_logs.pool_files_and_the_applied_file_are_deleted");
+	}
+	if has_reading {
+		assert!(unsafe { DROPPED_IDS[has_pool as usize] } == r, "U47.kill_logs.pool_files_and_the_applied_file_are_deleted");
+	}
+	kani::cover!(has_pool && has_reading && res.is_some(), "reached");
+});
+pub(crate) fn stub_drop_log2(_l: &Log, id: u32) -> Result<()> {
+	unsafe {
+		if DROPPED_N < 4 {
+			DROPPED_IDS[DROPPED_N] = id;
+		}
+		DROPPED_N += 1;
+		if id == QUEUED_ID {
+			DROPPED_QUEUED = true;
+		}
+	}
+	Ok(())
+}
